@@ -110,6 +110,21 @@ def set_ops(e):
             z3.Function(f"set_diff_{n}", st.sort(), st.sort(), st.sort()))
 
 
+def some_fn(e):
+    """some_<E>(s): a member of the set s if it has one (Skolem function of the emptiness test, axiom some_def)."""
+    from . import ty as T
+    return z3.Function(f"some_{T._sname(e)}", T.Set(e).sort(), e.sort())
+
+
+def _some_axiom(sort, esort, some):
+    from . import ty as T
+    so, eo, f = sort.sexpr(), esort.sexpr(), some.name()
+    txt = f"(assert (forall ((s {so}) (x {eo})) (! (=> (select s x) (select s ({f} s))) :pattern ((select s x) ({f} s)))))"
+    sorts = {x.name(): x for x in (T.TupS, T.MetaS, T.LayerS, T.StrS, T.FieldS, T.ValS, T.VNameS, T.VObjS)}
+    sorts.update({x.name(): x for x in T._pairs.values()})
+    return z3.parse_smt2_string(txt, sorts=sorts, decls={f: some})[0]
+
+
 def bagof_fn(e):
     """list(s) for a set / dict keys s: every member once (order not modelled)."""
     from . import ty as T
@@ -199,6 +214,8 @@ def _collection_axioms(e):
         f"card_mono[{n}]": _mono_axiom(st.sort(), e.sort(), card, n),
         f"card_ext[{n}]": _ext_axiom(st.sort(), sd, card),
         f"blen_ext[{n}]": _ext_axiom(bt.sort(), bd, blen),
+        # the emptiness test of option "empty_tests": a set with a member contains some(s); instantiated only where some(s) is mentioned
+        f"some_def[{n}]": _some_axiom(st.sort(), e.sort(), some_fn(e)),
         f"card_nonneg[{n}]": FA([s], card(s) >= 0, card(s)),
         f"blen_nonneg[{n}]": FA([b], blen(b) >= 0, blen(b)),
         f"card_empty[{n}]": card(z3.K(e.sort(), z3.BoolVal(False))) == 0,
@@ -244,6 +261,11 @@ def nx_centrality(kind, cls, vt=None):
                        z3.ArraySort(vt.sort(), R))
 
 
+# members(B): the set of all node labels occurring in the tuples of the list B  (set(itertools.chain(*B)))
+_BagT = z3.ArraySort(TupS, I)
+members = z3.Function("members", _BagT, _SetI)
+members_wit = z3.Function("members_wit", _BagT, I, TupS)
+
 EXTRA = {}    # name -> axiom, registered by contract modules (assumed properties of uncontracted code; listed as trusted)
 
 
@@ -254,6 +276,19 @@ EXTRA["rowsum_ext (a row sum depends only on the cells of that row)"] = z3.ForAl
                                 z3.And(0 <= RSDIFF(_m1, _m2, _ri, _rc), RSDIFF(_m1, _m2, _ri, _rc) < _rc,
                                        _m1[_pair_ii().mk(_ri, RSDIFF(_m1, _m2, _ri, _rc))] != _m2[_pair_ii().mk(_ri, RSDIFF(_m1, _m2, _ri, _rc))])),
     patterns=[MP(ROWSUM(_m1, _ri, _rc), ROWSUM(_m2, _ri, _rc))])
+_mb = z3.Const("_mb", _BagT)
+EXTRA["members_intro (a label of a listed tuple is a member)"] = z3.ForAll(
+    [_mb, _k, _n], z3.Implies(z3.And(_mb[_k] >= 1, tmem(_k, _n)), members(_mb)[_n]), patterns=[MP(members(_mb), _mb[_k], tmem(_k, _n))])
+EXTRA["members_elim (a member is a label of some listed tuple)"] = z3.ForAll(
+    [_mb, _n], z3.Implies(members(_mb)[_n], z3.And(_mb[members_wit(_mb, _n)] >= 1, tmem(members_wit(_mb, _n), _n))), patterns=[members(_mb)[_n]])
+# a subset that is at least as large is the whole set (finite sets of labels); Skolem witness of non-inclusion
+_subw = z3.Function("subset_eq_wit", _SetI, _SetI, I)
+_cardI = z3.Function("card_Int", _SetI, I)
+# instantiated only for a set of members(...) as the larger set, so that it does not multiply with every pair of cardinalities in a query
+EXTRA["card_subset_eq (a subset of members(B) that is at least as large is all of it; finite sets)"] = z3.ForAll(
+    [_ts1a := z3.Const("_ts1a", _SetI), _mb2 := z3.Const("_mb2", _BagT)],
+    z3.Or(z3.And(_ts1a[_subw(_ts1a, members(_mb2))], z3.Not(members(_mb2)[_subw(_ts1a, members(_mb2))])), _cardI(_ts1a) < _cardI(members(_mb2)), _ts1a == members(_mb2)),
+    patterns=[MP(_cardI(_ts1a), _cardI(members(_mb2)))])
 _pa, _pb = z3.Int("_pa"), z3.Int("_pb")
 _ts1, _ts2 = z3.Const("_ts1", _SetI), z3.Const("_ts2", _SetI)
 EXTRA.update({
